@@ -177,7 +177,8 @@ Op("fast_len", _always, lambda d, i: None, lambda pb, z, a: pb.fast_len(z), need
 def a_concat_t(draw, i):
     n = i["n"]
     k = draw(st.integers(1, 3))
-    return {"cuts": sorted(draw(st.lists(st.integers(0, n), min_size=k, max_size=k))), "drop": draw(st.integers(0, 3))}
+    return {"cuts": sorted(draw(st.lists(st.integers(0, n), min_size=k, max_size=k))), "drop": draw(st.integers(0, 3)),
+            "numpy_first": draw(st.integers(0, 3)) == 0}
 
 
 def r_concat_t(pb, z, a):
@@ -185,6 +186,10 @@ def r_concat_t(pb, z, a):
     pieces = [z[x:y] for x, y in zip(b, b[1:])]
     if a["drop"] == 1 and len(pieces) > 1:
         pieces[1] = type(z).like(pieces[1], start_time=None)
+    if a.get("numpy_first") and 0 < len(pieces[0]) < len(z):
+        # the first piece is held in memory (a block of zeros of the same shape), the others are whatever z is: for a Dask-backed z a list of
+        # mixed containers, whose join is still lazy
+        pieces[0] = type(z).like(pieces[0], np.zeros(pieces[0].shape, dtype=pieces[0].dtype))
     return pb.concatenate(pieces, axis=0)
 
 
